@@ -350,7 +350,7 @@ def run_check(pid, tier, seed, workers, deadline_s=None, n_override=None, do_shr
     write_evidence(pid, mod, tier, seed, wall, agg, n_cases, done, total, unlisted, known_hit, errors, truncated)
     print("%s: cases=%d/%d runs=%d ops=%d violations=%d unlisted_signatures=%d known=%d wall=%.1fs"
           % (pid, done, n_cases, agg["runs"], agg["ops"], total, len(unlisted), len(known_hit), wall))
-    for w in [p for p in getattr(mod, "PROBES", []) if not agg["probes"].get(p)]:
+    for w in [p for p in getattr(mod, "PROBES", []) if not agg["probes"].get(p) and p not in getattr(mod, "PROBES_ZERO_EXPECTED", {})]:
         print("  reach-warning: probe %s stayed at zero" % w)
     return rc
 
